@@ -39,7 +39,7 @@ class Prop(core.Prop):
     def bounds(self, tier):
         return {'time_blocks': [1, 2, 3] if tier == 'quick' else [1, 2, 3, 4, 5], 'categories': [1, 2], 'tracers_per_category': [1, 2],
                 'layer_patterns': ['1', '3', '2+3', '3+1', '2 / 1+2+3 / 3+2+1 (thorough)'],
-                'offsets': [(1, 1, 1), (13, 50, 1), (2, 3, 2), '(1,1,3), (72,1,1) (thorough)'],
+                'offsets': [(1, 1, 1), (13, 50, 1), (2, 3, 2), (1, 9, 1), (72, 1, 1), '(1,1,3), (1,9,2) (thorough)'],
                 'tables': ['complete', 'missing-line'], 'header_flags': ['11', '01', '10', '00'],
                 'block_length_hours': [1, '1/3', '1/2 (thorough)'],
                 'entry_points': ['bpch1', 'bpch2', 'bpch (default / reader=bpch1 / reader=bpch2)']}
@@ -67,7 +67,8 @@ class Prop(core.Prop):
     def expand(self, group):
         th = self.tier == 'thorough'
         for lp in (('1', '3', '2+3', '3+1') + (('2', '1+2+3', '3+2+1') if th else ())):
-            for off in (((1, 1, 1), (13, 50, 1), (2, 3, 2)) + (((1, 1, 3), (72, 1, 1)) if th else ())):
+            # (windows offset along one axis only, two axes, all three)
+            for off in (((1, 1, 1), (13, 50, 1), (2, 3, 2), (1, 9, 1), (72, 1, 1)) + (((1, 1, 3), (1, 9, 2)) if th else ())):
                 for tables in ('complete', 'missing-line'):
                     yield dict(group, layers=lp, start=list(off), tables=tables)
                     if th:
